@@ -4,6 +4,7 @@ import (
 	"bytes"
 	"encoding/binary"
 	"errors"
+	"fmt"
 	"github.com/bolkedebruin/rdpgw/cmd/rdpgw/transport"
 	"io"
 	"log"
@@ -22,43 +23,40 @@ type RedirectFlags struct {
 	EnableAll  bool
 }
 
-// readMessage parses and defragments a packet from a Transport. It returns
-// at most the bytes that have been reported by the packet
-func readMessage(in transport.Transport) (pt int, n int, msg []byte, err error) {
-	fragment := false
-	index := 0
-	buf := make([]byte, 4096)
+// maxPacketSize bounds the size a packet header may announce. The largest
+// legal packet is a data packet carrying a 64 KiB payload plus headers.
+const maxPacketSize = 128 * 1024
 
+// readMessage parses and defragments a packet from a Transport. The packet
+// boundaries are taken from the packet headers only: a packet may arrive in
+// any number of transport reads and one transport read may carry several
+// packets. Bytes read beyond the end of the returned packet are kept in
+// pending for the next call. It returns at most the bytes that have been
+// reported by the packet
+func readMessage(in transport.Transport, pending *[]byte) (pt int, n int, msg []byte, err error) {
 	for {
+		if len(*pending) >= 8 {
+			size := binary.LittleEndian.Uint32((*pending)[4:8])
+			if size < 8 || size > maxPacketSize {
+				return 0, 0, []byte{0, 0}, fmt.Errorf("invalid packet size %d in header", size)
+			}
+			if len(*pending) >= int(size) {
+				pt, sz, data, err := readHeader((*pending)[:size])
+				if err != nil {
+					return 0, 0, []byte{0, 0}, err
+				}
+				msg := make([]byte, len(data))
+				copy(msg, data)
+				*pending = (*pending)[size:]
+				return int(pt), int(sz), msg, nil
+			}
+		}
+
 		size, pkt, err := in.ReadPacket()
 		if err != nil {
 			return 0, 0, []byte{0, 0}, err
 		}
-
-		// check for fragments
-		var pt uint16
-		var sz uint32
-		var msg []byte
-
-		if !fragment {
-			pt, sz, msg, err = readHeader(pkt[:size])
-			if err != nil {
-				fragment = true
-				index = copy(buf, pkt[:size])
-				continue
-			}
-			index = 0
-		} else {
-			fragment = false
-			pt, sz, msg, err = readHeader(append(buf[:index], pkt[:size]...))
-			// header is corrupted even after defragmenting
-			if err != nil {
-				return 0, 0, []byte{0, 0}, err
-			}
-		}
-		if !fragment {
-			return int(pt), int(sz), msg, nil
-		}
+		*pending = append(*pending, pkt[:size]...)
 	}
 }
 
